@@ -157,7 +157,7 @@ func renderNodeWithContext(ctx VueContext, w io.Writer, node *html.Node, indent 
 		}
 
 	case html.TextNode:
-		if strings.TrimSpace(node.Data) == "" {
+		if helpers.IsHTMLBlank(node.Data) {
 			return nil
 		}
 		spaces := getIndent(indent)
